@@ -113,11 +113,12 @@ def program(draw, depth):
         body = body + [blk_, ["def", "peafter", 4, False]]
     stray = draw(st.sampled_from([None] * 9 + ["else_end", "end_end", "else_start", "end_start", "else_after_closed",
                                                "else_in_clause", "else_in_group", "else_deeper_after_node",
-                                               "else_in_unselected_clause", "second_end_in_unselected_clause"]))
+                                               "else_in_unselected_clause", "second_end_in_unselected_clause",
+                                               "foreign_end_compact", "foreign_end_plain", "property_in_selected_clause"]))
     # blank and comment lines are legal anywhere and must not end (or keep open) a clause
     fill = draw(st.one_of(st.none(), st.lists(st.sampled_from([0, 0, 0, 1, 2, 3]), min_size=8, max_size=8)))
     return {"base": base, "items": body, "widths": draw(st.lists(st.integers(1, 4), min_size=6, max_size=6)), "stray": stray,
-            "fill": fill, "history": draw(st.sampled_from([None, None, None, "after_failed_parse", "on_env_with_open_block"]))}
+            "fill": fill, "ptail": draw(st.integers(0, 5)) == 0, "ragged": draw(st.integers(0, 3)) == 0, "history": draw(st.sampled_from([None, None, None, "after_failed_parse", "on_env_with_open_block"]))}
 
 
 def strategies(tier):
@@ -161,12 +162,17 @@ def _uses_aux(its):
     return False
 
 
-def render_items(its, level, widths, out, prefix=""):
+RAGGED = [False]
+
+
+def render_items(its, level, widths, out, prefix="", in_clause=False):
     ind = " " * sum(widths[:level])
     for idx, it in enumerate(its):
         k = it[0]
         if k == "def":
-            out.append(f"{ind}{it[1]} int = {it[2]}")
+            # ragged clause bodies: the first line of a clause may be indented deeper than the lines that follow it
+            extra = "    " if (RAGGED[0] and in_clause and idx == 0 and not it[3] and len(its) > 1 and its[1][0] in ("def", "mod")) else ""
+            out.append(f"{ind}{extra}{it[1]} int = {it[2]}")
             if it[3]:
                 out.append(f"{ind}{' ' * widths[level]}!constant")
         elif k == "mod":
@@ -187,13 +193,13 @@ def render_items(its, level, widths, out, prefix=""):
             dot = pf + "." if pf else ""
             for c in clauses:
                 out.append(f"{ind}{dot}@case {cond_text(c['cond'])}")
-                render_items(c["items"], level + 1, widths, out, prefix + dot)
+                render_items(c["items"], level + 1, widths, out, prefix + dot, True)
             if els is not None:
                 out.append(f"{ind}{dot}@else")
-                render_items(els, level + 1, widths, out, prefix + dot)
+                render_items(els, level + 1, widths, out, prefix + dot, True)
             for c in _post(it):
                 out.append(f"{ind}{dot}@case {cond_text(c['cond'])}")
-                render_items(c["items"], level + 1, widths, out, prefix + dot)
+                render_items(c["items"], level + 1, widths, out, prefix + dot, True)
             if _explicit_end(its, idx):
                 out.append(f"{ind}{dot}@end")
 
@@ -203,7 +209,9 @@ def render(case):
     if _uses_aux(case["items"]):
         out = ["$source aux = @AUXPATH@"] + out
     body = []
+    RAGGED[0] = bool(case.get("ragged"))
     render_items(case["items"], 0, case["widths"], body)
+    RAGGED[0] = False
     if case.get("fill"):
         filled = []
         for i, line in enumerate(body):
@@ -227,6 +235,13 @@ def render(case):
         out = out + body + ["@case true", "  @else", "    q1 int = 1", "@end"]
     elif s == "else_in_group":
         out = out + body + ["grp", "  @else", "    q1 int = 1"]
+    elif s == "foreign_end_compact":
+        out = out + body + ["ga.@case true", "  q1 int = 1", "gb.@end", "q2 int = 2"]
+    elif s == "foreign_end_plain":
+        out = out + body + ["@case true", "  q1 int = 1", "gb.@end", "q2 int = 2"]
+    elif s == "property_in_selected_clause":
+        # a property line directly in a clause belongs to the node before the block: selected -> the node is constant
+        out = out + body + ["pz int = 1", " @case true", "  !constant", " @end", "pz = 2"]
     elif s == "else_in_unselected_clause":
         out = out + body + ["@case false", "  @else", "    q1 int = 1", "@end"]
     elif s == "second_end_in_unselected_clause":
@@ -235,6 +250,8 @@ def render(case):
         out = out + body + ["@case true", "  q0 int = 1", "  @else", "    q1 int = 2", "@end"]
     else:
         out = out + body
+    if case.get("ptail") and not s:
+        out = out + ["pz int = 1", " @case false", "  !constant", " @end", "pz = 2"]
     return "\n".join(out)
 
 
@@ -252,7 +269,8 @@ def interpret(case):
     const = {}
     info = {"allfalse_indent_then_node": False, "nested_in_unselected": False, "max_clauses": 0,
             "compact_names": False, "sibling_blocks_by_indent": False, "reference_in_unselected": False,
-            "import_from_second_file": False, "clauses_after_else": False}
+            "import_from_second_file": False, "clauses_after_else": False,
+            "property_in_unselected_clause": False, "ragged_clause_body": False}
     for n, v in zip(BASE, case["base"]):
         model[n] = v
         const[n] = False
@@ -317,6 +335,10 @@ def interpret(case):
                 if active and chosen is None and els is None and not explicit and nxt is not None:
                     info["allfalse_indent_then_node"] = True
     walk(case["items"], "", True)
+    if case.get("ptail") and not case.get("stray"):
+        model["pz"] = 2
+        const["pz"] = False
+        info["property_in_unselected_clause"] = True
     return model, const, info
 
 
@@ -481,13 +503,15 @@ def _check(case, v):
             return v.fail("property-effect", f"{k}.constant = {nodes[k].constant}, expected {c} for:\n{text}")
     v.nt(info["allfalse_indent_then_node"] or info["nested_in_unselected"] or info["max_clauses"] >= 3)
     v.label("program")
+    if case.get("ragged") and "    " in text:
+        v.label("ragged_clause_body")
     if case.get("history"):
         v.label(case["history"])
     if case.get("fill") and any(case["fill"]):
         v.label("blank_or_comment_lines")
     for key in ("allfalse_indent_then_node", "nested_in_unselected", "compact_names", "sibling_blocks_by_indent",
                 "reference_in_unselected", "import_from_second_file",
-                "clauses_after_else"):
+                "clauses_after_else", "property_in_unselected_clause", "ragged_clause_body"):
         if info[key]:
             v.label(key)
     if info["max_clauses"] >= 3:
